@@ -632,12 +632,30 @@ def run(ch, idx, tier):
             if not _close(s_.vals, np.interp(new_t, tv, bv), rtol=1e-12, atol=1e-12):
                 bump("observed_beyond_property:interpolation_not_linear")  # the interpolation rule itself is not part of C20's statement
 
+    def probe_reports(r):
+        # what a user sees of a result: a fixed set of reports (first compartment, first flow, and with programs the
+        # coverage fractions, capacities and spending).  "Producing plots or exports never modifies the result" is
+        # judged on these as well as on the stored arrays: a reporting call that changes what a later report shows
+        # has modified the result, wherever the change is kept.
+        h_ = hashlib.sha256()
+        try:
+            for s_ in at.PlotData(r, outputs=plain[:1] + flows[:1], pops=pops[:1]).series:
+                h_.update(np.asarray(s_.vals, dtype=float).tobytes())
+            if use_progs:
+                for q_ in ("coverage_fraction", "coverage_capacity", "spending"):
+                    for s_ in at.PlotData.programs(r, quantity=q_).series:
+                        h_.update(np.asarray(s_.vals, dtype=float).tobytes())
+        except Exception as e_:
+            h_.update(repr(type(e_).__name__).encode())
+        return h_.hexdigest()[:20]
+
+    probe0 = probe_reports(pristine())
     nops = 1 + ch.choose("history_length", 6)
     try:
         for k in range(nops):
             ch.mark(f"op{k}")
-            kind = ch.choose(f"op[{k}].kind", 9)
-            if kind == 8:
+            kind = ch.choose(f"op[{k}].kind", 10)
+            if kind >= 8:
                 programs_op(k)
             elif kind <= 3:
                 plotdata_op(k)
@@ -654,6 +672,10 @@ def run(ch, idx, tier):
             if full_digest(res) != d_res0:
                 violate("reporting_modifies_result", history[-1]["op"], {"after": history[-1]})
                 d_res0 = full_digest(res)
+            pr_ = probe_reports(res)
+            if pr_ != probe0:
+                violate("reporting_modifies_result", history[-1]["op"] + "[later reports differ]", {"after": history[-1]})
+                probe0 = pr_
             if digest_obj([res.model.progset, res.model.program_instructions, res.model.framework]) != d_aux0:
                 violate("reporting_modifies_result_inputs", history[-1]["op"], {"after": history[-1]})
                 d_aux0 = digest_obj([res.model.progset, res.model.program_instructions, res.model.framework])
